@@ -490,6 +490,9 @@ impl Check for C18 {
         }
         out
     }
+    fn exhaustive_note(&self, tier: Tier) -> Option<String> {
+        Some(if tier == Tier::Thorough { "every leaf alone, 3 iterations, in three repetition styles, two of them with fault enumeration".to_string() } else { "every leaf alone, 3 iterations, as repeated text on stdin".to_string() })
+    }
     fn shrink(&self, case: &Value) -> Vec<Value> {
         let Ok(c) = serde_json::from_value::<Case>(case.clone()) else { return vec![] };
         let mut out: Vec<Case> = vec![];
